@@ -32,6 +32,31 @@ theorem rotateN_forall (as : List TupleAssign) (p : Nat) (hp : 0 < p) (e : Env) 
   rw [hk, rotateN_add, rotateN_period as p e h]
   exact hQ _ (Nat.mod_lt _ hp)
 
+/-! ### shifted names (`zvec_*`, `qvec_*`) -/
+
+/-- The live Lanczos names denote pairwise different buffers, all older than the next allocation. -/
+def ShiftOK (st : Env × Nat) : Prop :=
+  ∃ a b p c q : Nat, st.1 = [("zvec_prev2", a), ("zvec_prev1", b), ("prod", p), ("qvec_prev1", c), ("qvec_curr", q)] ∧
+    a ≠ b ∧ b ≠ c ∧ a ≠ c ∧ a < st.2 ∧ b < st.2 ∧ c < st.2
+
+theorem allocN_inv (as : List TupleAssign) (fresh : List String)
+    (hstep : ∀ st, ShiftOK st → ShiftOK (allocStep as fresh st)) (k : Nat) (st : Env × Nat) (h : ShiftOK st) :
+    ShiftOK (allocN as fresh k st) := by
+  induction k generalizing st with
+  | zero => exact h
+  | succ k ih => exact ih _ (hstep st h)
+
+theorem ShiftOK.get {st : Env × Nat} (h : ShiftOK st) :
+    st.1.get "zvec_prev2" ≠ st.1.get "zvec_prev1" ∧ st.1.get "zvec_prev1" ≠ st.1.get "qvec_prev1" ∧
+    st.1.get "zvec_prev2" ≠ st.1.get "qvec_prev1" ∧
+    st.1.get "zvec_prev2" < st.2 ∧ st.1.get "zvec_prev1" < st.2 ∧ st.1.get "qvec_prev1" < st.2 := by
+  obtain ⟨a, b, p, c, q, he, h1, h2, h3, h4, h5, h6⟩ := h
+  have ea : st.1.get "zvec_prev2" = a := by rw [he]; rfl
+  have eb : st.1.get "zvec_prev1" = b := by rw [he]; rfl
+  have ec : st.1.get "qvec_prev1" = c := by rw [he]; rfl
+  rw [ea, eb, ec]
+  exact ⟨h1, h2, h3, h4, h5, h6⟩
+
 /-! ### dot products -/
 
 section field
